@@ -50,6 +50,12 @@ func main() {
 	r := ev.Start("C10", "model_checking")
 	schedrun.Build(false)
 	if r.Replay != "" {
+		var sc storCase
+		r.LoadReplay(&sc)
+		if sc.Op != "" {
+			storageStage(r, true)
+			r.Finish()
+		}
 		var c schedrun.ReplayCase
 		r.LoadReplay(&c)
 		cj, _ := json.Marshal(c.Choices)
@@ -70,6 +76,7 @@ func main() {
 		"non-trivial = scenarios with more than one execution, i.e. whose code ranges over a map with several keys")
 	r.Assume("newly inserted keys are not visited during a map range (one of Go's two legal behaviours)", "maps with more than 64 keys are iterated in canonical order only",
 		"termination = within 50000 loop iterations / decisions", "smoothing rules whose published formula itself merges two vertices are skipped")
+	r.Isolate("storage-rotations", func() { storageStage(r, r.Thorough()) })
 	names := schedrun.List("C10")
 	small := map[string]bool{"tetra": true, "sliver-tetra": true, "octa": true, "prism": true, "cube": true, "two-tetra": true,
 		"triangle": true, "square": true, "colinear-runs": true, "L": true, "heptagon": true, "with-hole": true, "two-squares": true}
